@@ -2216,6 +2216,13 @@ evhttp_parse_firstline_(struct evhttp_request *req, struct evbuffer *buffer)
 
 	req->headers_size = len;
 
+	/* A NUL byte inside the line would hide the rest of it from the
+	 * string functions used below. */
+	if (strlen(line) != len) {
+		mm_free(line);
+		return (DATA_CORRUPTED);
+	}
+
 	switch (req->kind) {
 	case EVHTTP_REQUEST:
 		if (evhttp_parse_request_line(req, line, len) == -1)
